@@ -168,6 +168,25 @@ def gen_custom(rng, nprng, nmax):
     }
 
 
+def gen_custom_large(rng, nprng):
+    """a custom sample of realistic size (well over a hundred SNe with < 0.1 mag errors): the determinant of its covariance is far
+    below the smallest float (var^N), the log-density is an ordinary number"""
+    c = gen_custom(rng, nprng, 4)
+    n = rng.randint(130, 200)
+    zcmb = np.sort(nprng.uniform(0.01, 2.3, n))
+    zhel = np.maximum(zcmb + nprng.normal(0, 2e-3, n), 1e-3)
+    var = nprng.uniform(0.03, 0.08, n) ** 2            # N * log10(var) < -330: det(cov) underflows, slogdet does not
+    u = nprng.normal(0, 0.02, (n, 2))
+    cov = np.diag(var) + u @ u.T                      # independent errors plus two shared systematics
+    cos = FakeCosmo.from_json(c["cosmo"])
+    m_true = c["m"] if c["m"] is not None else 0.0
+    mag = m_true + sne_moduli(cos, zhel, zcmb) - mu_anchor(cos, c["za"]) + nprng.normal(0, 1, n) * np.sqrt(var)
+    c.update(mag=mag.tolist(), cov=cov.tolist(), zhel=zhel.tolist(), zcmb=zcmb.tolist(), ckind="large", cov_int=False, large=True)
+    for call in c["calls"]:
+        call["lum"] = (mag - m_true + nprng.normal(0, 0.2, n) + rng.uniform(-30, 30)).tolist()
+    return c
+
+
 def build_custom(c):
     from hierarc.Likelihood.SneLikelihood.sne_likelihood import SneLikelihood
     arrs = {"mag_mean": np.array(c["mag"], dtype=float), "cov_mag": np.array(c["cov"], dtype=(int if c.get("cov_int") else float)),
@@ -548,6 +567,7 @@ def run(ctx, res):
     nmax = 12 if ctx.tier == "quick" else 32
     cases = [dict(c) for c in FIXED]
     cases += [gen_custom(rng, nprng, nmax) for _ in range(ctx.n(300, 2500))]
+    cases += [gen_custom_large(rng, nprng) for _ in range(ctx.n(2, 10))]
     cases += [gen_file(rng) for _ in range(ctx.n(40, 300))]
     cases += [gen_lens(rng) for _ in range(ctx.n(200, 3000))]
     cases += [gen_joint(rng, nprng) for _ in range(ctx.n(15, 250))]
@@ -562,7 +582,7 @@ def run(ctx, res):
         res.count("stream=" + c["kind"])
         if c["kind"] in ("custom", "joint"):
             n = len(c["mag"])
-            res.count("n=" + ("1" if n == 1 else "2-5" if n <= 5 else "6-12" if n <= 12 else "13-40"))
+            res.count("n=" + ("1" if n == 1 else "2-5" if n <= 5 else "6-12" if n <= 12 else "13-40" if n <= 40 else "130-200"))
             res.count("cov=" + str(c.get("ckind")))
             res.count("sigma=" + ("none" if c["sigma"] is None else "zero" if c["sigma"] == 0 else "pos"))
             res.count("m=" + ("free" if c["m_free"] else "given"))
@@ -587,8 +607,8 @@ def run(ctx, res):
     # ---- correspondence: the model's executable definitions (Float) vs the implementation
     reqs, owner = [], []
     for i, c in enumerate(cases):
-        if observed[i] is None or c["kind"] == "joint":
-            continue
+        if observed[i] is None or c["kind"] == "joint" or c.get("large"):
+            continue      # (large samples: oracle only — the model's exact elimination at Float is run on the small ones)
         rs = {"custom": req_custom, "file": req_file, "lens": req_lens}[c["kind"]](c)
         for j, r in enumerate(rs):
             reqs.append(r)
